@@ -119,6 +119,15 @@ func (u *Universe) enter(fi *FuncInfo) (*Ctx, *Path, *frame, *SpecEnv) {
 	}
 	var rets []*Path
 	fr := &frame{fi: fi, info: fi.Pkg.TypesInfo, rets: &rets, depth: 0}
+	{
+		var nv []*types.Var
+		for i := 0; i < fi.Sig.Results().Len(); i++ {
+			nv = append(nv, fi.Sig.Results().At(i))
+		}
+		if len(nv) > 0 {
+			fr.bindNamed(p, nv)
+		}
+	}
 	return c, p, fr, env
 }
 
